@@ -65,7 +65,7 @@ def gen(seed, tier):
             ops.append(["dup", rng.randrange(9)])  # the same pool listed once more: it counts once per entry
         else:
             ops.append(["read"])
-    return {"prop": "C07", "seed": seed, "kind": kind, "children": children, "ops": ops, "initial_demand": rng.choice([0.0, 1.0, 5.0])}
+    return {"prop": "C07", "seed": seed, "bystander": rng.random() < 0.3, "kind": kind, "children": children, "ops": ops, "initial_demand": rng.choice([0.0, 1.0, 5.0])}
 
 
 def close(a, b, scale=None):
@@ -91,8 +91,20 @@ def run(scenario, tape_values):
         return RecPool(world, "c%d" % counter[0], supply=state["supply"], demand=sc.get("initial_demand", 0.0), utilisation=state["utilisation"], allocation=state["allocation"])
 
     kids = [mk(c) for c in sc["children"]]
+    # every world starts from the state of a fresh interpreter: class-level defaults are process state
+    UniformComposite.children = []
+    WeightedComposite.children = []
     comp = UniformComposite(*kids) if kind == "uniform" else WeightedComposite(*kids, weight=kind)
+    expected = list(kids)  # the children this composite was given, kept by the harness
+    if sc.get("bystander"):
+        # another composite of the same class, built empty and filled in place: none of this one's business
+        by = UniformComposite() if kind == "uniform" else WeightedComposite(weight=kind)
+        by.children.append(RecPool(world, "foreign", supply=5.0, demand=9.0, utilisation=0.5, allocation=0.5))
     written = {"D": None}
+
+    def check_children(tag):
+        if [id(c) for c in comp.children] != [id(c) for c in expected]:
+            V("C07/children-changed-behind-its-back/%s" % kind, "after %s the composite holds %r, it was given %r" % (tag, [c.name for c in comp.children], [c.name for c in expected]))
 
     def weights():
         if kind == "uniform":
@@ -145,6 +157,7 @@ def run(scenario, tape_values):
                     V("C07/not-proportional/%s" % kind, "share %r * total weight %r != D %r * weight %r" % (s, total, D, wi))
 
     async def main(world, nursery):
+        check_children("construction")
         check_aggregates("initial")
         for op in ops:
             k = op[0]
@@ -164,8 +177,10 @@ def run(scenario, tape_values):
                     ch[op[1] % len(ch)].poke(op[2], op[3])
             elif k == "add":
                 comp.children.append(mk(op[1]))
+                expected.append(comp.children[-1])
             elif k == "remove":
                 if comp.children:
+                    expected.pop(op[1] % len(comp.children))
                     comp.children.pop(op[1] % len(comp.children))
             elif k == "reassign":
                 cur = list(comp.children)
@@ -174,16 +189,19 @@ def run(scenario, tape_values):
                 elif op[1] == "drop-last" and len(cur) > 1:
                     cur = cur[:-1]
                 comp.children = cur
+                expected[:] = cur
                 if written["D"] is not None and (comp.demand != written["D"] or type(comp.demand) is not type(written["D"])):
                     V("C07/readback/%s" % kind, "composite reads back %r after its children were assigned anew, last written %r" % (comp.demand, written["D"]))
             elif k == "dup":
                 if comp.children:
                     comp.children.append(comp.children[op[1] % len(comp.children)])
+                    expected.append(comp.children[-1])
             elif k == "read":
                 if written["D"] is not None and comp.demand != written["D"]:
                     V("C07/readback/%s" % kind, "composite reads back %r, last written %r" % (comp.demand, written["D"]))
             else:
                 raise ScenarioInvalid(k)
+            check_children(k)
             check_aggregates(k)
             world.op = None
             await trio.sleep(0)
